@@ -1,5 +1,7 @@
 //! C02 — basic D-set queries in every representation.
-use rust_dsymbols::derived::{as_dset, as_dsym, as_partial_dsym};
+use rust_dsymbols::derived::{as_dset, as_dsym, as_partial_dsym, canonical, dual, minimal_image, oriented_cover};
+use rust_dsymbols::generators::dset_generators::DSets;
+use rust_dsymbols::generators::dsym_generators::{DSyms, Geometries};
 use rust_dsymbols::dsets::{DSet, PartialDSet, Sign, SimpleDSet};
 use rust_dsymbols::dsyms::{collect_orbits, DSym, PartialDSym, SimpleDSym};
 use std::panic::{catch_unwind, AssertUnwindSafe};
@@ -306,6 +308,98 @@ fn graph_all_reps(ctx: &mut Ctx, t: &Tab, rng: &mut Rng, complete: bool, has_v: 
     }
 }
 
+/// Tab of a library-produced symbol, derived WITHOUT trusting its r/v: images from `op`, and the
+/// branching number as m(i,i+1,d) divided by the orbit length walked here on the images
+/// (0 when the object does not answer or the quotient is not exact — the model then disagrees).
+fn tab_of_object<T: DSym>(ds: &T) -> Tab {
+    let mut t = Tab::from_dset(ds);
+    for i in 0..t.dim {
+        for d in 1..=t.size {
+            let (mut e, mut k) = (d, 0usize);
+            loop {
+                let f = t.op[i][e];
+                e = if f == 0 { 0 } else { t.op[i + 1][f] };
+                k += 1;
+                if e == d || e == 0 || k > 2 * t.size {
+                    break;
+                }
+            }
+            let m = ds.m(i, i + 1, d).unwrap_or(0);
+            t.v[i][d] = if e == d && m % k == 0 { m / k } else { 0 };
+        }
+    }
+    t
+}
+
+/// op `gentables`: the r/m/v/op questions of `tables`, asked of an object the LIBRARY built, in the
+/// representation it was built in (mask 2 = SimpleDSet, 4 = PartialDSym, 8 = SimpleDSym); the
+/// driver answers from the transmitted tables with the model of that representation.
+fn gentables_sym<T: DSym>(ctx: &mut Ctx, ds: &T, mask: usize, tag: &str) {
+    let t = tab_of_object(ds);
+    ctx.case(
+        "gentables",
+        tag,
+        || format!("{} 1 {}", mask, t.enc()),
+        || {
+            let mut out = vec![];
+            tables_sym(ds, &dense_grid(t.size, t.dim), &mut out);
+            join(&out)
+        },
+    );
+}
+
+fn gentables_set<T: DSet>(ctx: &mut Ctx, ds: &T, mask: usize, tag: &str) {
+    let t = Tab::from_dset(ds);
+    ctx.case(
+        "gentables",
+        tag,
+        || format!("{} 1 {}", mask, t.enc()),
+        || {
+            let mut out = vec![];
+            tables_set(ds, &dense_grid(t.size, t.dim), &mut out);
+            join(&out)
+        },
+    );
+}
+
+/// (6) objects built by the library itself, each in its native representation: the generators'
+/// SimpleDSet / SimpleDSym, parsed text, dual, canonical, minimal image, oriented cover
+/// (found missing by the seeded change C02-m8: `PartialDSym::from_fields` and its only caller, the
+/// symbol generator, disagreeing on the order of the r and v tables)
+fn library_objects(ctx: &mut Ctx, th: bool) {
+    let bounds: &[(usize, usize)] = if th { &[(1, 6), (2, 6), (3, 4)] } else { &[(1, 4), (2, 5), (3, 3)] };
+    for &(dim, nmax) in bounds {
+        for dset in DSets::new(dim, nmax) {
+            let tag = format!("nt generated dim={} size={}", dim, dset.size());
+            gentables_set(ctx, &dset, 2, &tag);
+            if dim != 2 {
+                continue;
+            }
+            let geoms = [Geometries::Spherical, Geometries::Euclidean, Geometries::Hyperbolic];
+            for g in geoms {
+                for (k, ds) in DSyms::new(&dset, g).enumerate() {
+                    if k >= (if th { 40 } else { 6 }) {
+                        break;
+                    }
+                    gentables_sym(ctx, &ds, 8, &tag);
+                    if k < 2 {
+                        let tagd = format!("nt derived dim={} size={}", dim, dset.size());
+                        if let Ok(p) = ds.to_string().parse::<PartialDSym>() {
+                            gentables_sym(ctx, &p, 4, &tagd);
+                        }
+                        gentables_sym(ctx, &dual(&ds), 4, &tagd);
+                        gentables_sym(ctx, &canonical(&ds), 4, &tagd);
+                        gentables_sym(ctx, &minimal_image(&ds), 4, &tagd);
+                        gentables_sym(ctx, &oriented_cover(&ds), 4, &tagd);
+                        let simple: SimpleDSym = dual(&ds).into();
+                        gentables_sym(ctx, &simple, 8, &tagd);
+                    }
+                }
+            }
+        }
+    }
+}
+
 fn main() {
     let mut ctx = Ctx::from_args();
     let th = ctx.thorough();
@@ -421,5 +515,6 @@ fn main() {
             graph_all_reps(&mut ctx, &s2, &mut rng, true, true, false, &tag);
         }
     }
+    library_objects(&mut ctx, th);
     ctx.finish();
 }
